@@ -338,14 +338,15 @@ func rulePredictorTable(c *eng.Ctx) {
 	c.Check(idOK, R, "filters.applyPredictor#1->identity", fn.Pos(), "predictor 1 returns the data unchanged", "predictor 1 is no longer the identity")
 	c.Check(errOK, R, "filters.applyPredictor#else->error", fn.Pos(), "unsupported predictors are an error", "unsupported predictor values no longer produce an error")
 
-	row := c.P.Func("internal/filters.decodePNGRow")
-	if row == nil {
+	pr := findPNGRow(c.P)
+	if pr == nil || pr.find("tag") == nil {
 		c.Undec(R, "filters.decodePNGRow", token.NoPos, "anchor not found")
 		return
 	}
+	row := pr.fn
 	tags := map[int64]bool{}
 	eng.Instrs(row, false, func(in ssa.Instruction) {
-		if b, ok := in.(*ssa.BinOp); ok && b.Op == token.EQL && b.X == ssa.Value(row.Params[1]) {
+		if b, ok := in.(*ssa.BinOp); ok && b.Op == token.EQL && pr.role(b.X) == "tag" {
 			if k, ok := eng.ConstInt(b.Y); ok {
 				tags[k] = true
 			}
@@ -354,7 +355,7 @@ func rulePredictorTable(c *eng.Ctx) {
 	allTags := tags[0] && tags[1] && tags[2] && tags[3] && tags[4] && len(tags) == 5
 	errDefault := false
 	for _, r := range eng.Returns(row) {
-		if nn, known := eng.ErrValueNonNil(r.Results[1]); known && nn {
+		if nn, known := eng.ErrValueNonNil(r.Results[len(r.Results)-1]); known && nn {
 			errDefault = true
 		}
 	}
@@ -384,21 +385,24 @@ type access struct {
 func ruleStride(c *eng.Ctx) {
 	const R = "R5.4-STRIDE"
 	c.Rule(R, "neighbour accesses of the PNG and TIFF predictors have exactly the specified index polynomials and guards; row geometry tiles input and output", 12, 0)
-	row := c.P.Func("internal/filters.decodePNGRow")
-	if row == nil {
+	pr := findPNGRow(c.P)
+	if pr == nil {
 		c.Undec(R, "filters.decodePNGRow", token.NoPos, "anchor not found")
 		return
 	}
-	// canonical symbols by parameter position: rowData, predictor, bpp, rowNum, prevRows, rowLength
-	if len(row.Params) != 6 {
-		c.Undec(R, "filters.decodePNGRow", row.Pos(), "signature changed; the stride rule is written for (rowData, predictor, bytesPerPixel, rowNum, prevRows, rowLength)")
-		return
+	row := pr.fn
+	// the inputs by role (parameters or fields of a decoder value): bpp, row, rowLen, prev, in, tag
+	for _, need := range []string{"bpp", "row", "rowLen", "prev", "in", "tag"} {
+		if pr.find(need) == nil {
+			c.Undec(R, "filters.decodePNGRow", row.Pos(), "the row decoder no longer has an input recognisable as "+need+" (rowData, predictor, bytesPerPixel, rowNum, prevRows, rowLength)")
+			return
+		}
 	}
-	sym := map[ssa.Value]string{row.Params[2]: "bpp", row.Params[3]: "row", row.Params[5]: "rowLen"}
 	var loopI *ssa.Phi
 	leaf := func(v ssa.Value) (*eng.Poly, bool) {
-		if s, ok := sym[v]; ok {
-			return eng.PSym(s), true
+		switch pr.role(v) {
+		case "bpp", "row", "rowLen":
+			return eng.PSym(pr.role(v)), true
 		}
 		if ph, ok := v.(*ssa.Phi); ok && isLoopCarried(ph) {
 			if loopI == nil || loopI == ph {
@@ -429,9 +433,9 @@ func ruleStride(c *eng.Ctx) {
 		switch {
 		case b == outBuf:
 			return "out"
-		case b == ssa.Value(row.Params[4]):
+		case pr.role(b) == "prev":
 			return "prev"
-		case b == ssa.Value(row.Params[0]):
+		case pr.role(b) == "in":
 			return "in"
 		}
 		return ""
@@ -443,7 +447,7 @@ func ruleStride(c *eng.Ctx) {
 				return false
 			}
 			op, x, y, ok := f.Cmp()
-			if !ok || op != token.EQL || x != ssa.Value(row.Params[1]) {
+			if !ok || op != token.EQL || pr.role(x) != "tag" {
 				return false
 			}
 			kk, isC := eng.ConstInt(y)
@@ -654,19 +658,27 @@ func paramSymsDepth(fn *ssa.Function, depth int) func(ssa.Value) (*eng.Poly, boo
 
 func ruleRowGeometry(c *eng.Ctx, R string) {
 	fn := c.P.Func("internal/filters.applyPNGPredictor")
-	rowFn := c.P.Func("internal/filters.decodePNGRow")
-	if fn == nil || rowFn == nil {
+	pr := findPNGRow(c.P)
+	if fn == nil || pr == nil {
 		c.Undec(R, "filters.applyPNGPredictor", token.NoPos, "anchor not found")
 		return
 	}
 	leaf := paramSyms(fn)
-	calls := eng.CallsNamed(fn, false, "internal/filters.decodePNGRow")
+	calls := eng.Calls(fn, false, func(_ string, ci ssa.CallInstruction) bool { return ci.Common().StaticCallee() == pr.fn })
 	if len(calls) != 1 {
 		c.Viol(R, "filters.applyPNGPredictor#rows", fn.Pos(), "rows are not decoded by exactly one decodePNGRow call in the row loop")
 		return
 	}
 	call := calls[0]
-	args := call.Common().Args
+	// the six inputs in the original order, wherever the caller now supplies them
+	args := make([]ssa.Value, 6)
+	for i, role := range []string{"in", "tag", "bpp", "row", "prev", "rowLen"} {
+		args[i] = pr.atCall(call, role)
+		if args[i] == nil {
+			c.Undec(R, "filters.applyPNGPredictor#rows", call.Pos(), "cannot find what the row loop supplies as "+role)
+			return
+		}
+	}
 	cols, colors := eng.PSym("Columns"), eng.PSym("Colors")
 	rowLen := cols.Mul(colors)
 	stride := rowLen.Add(eng.PConst(1))
@@ -1113,4 +1125,127 @@ func ruleASCIIClasses(c *eng.Ctx) {
 		}
 		c.Check(okZ, R, "internal/filters.ASCII85Decode#z", fn.Pos(), "'z' writes four zero bytes", "'z' no longer expands to exactly four zero bytes")
 	}
+}
+
+// ---------------------------------------------------------------------------
+// the PNG row decoder and the roles of its inputs
+// ---------------------------------------------------------------------------
+
+// pngRow finds the function that reverses the prediction of one PNG row and names its inputs by role, whether they
+// arrive as parameters (decodePNGRow(rowData, predictor, bytesPerPixel, rowNum, prevRows, rowLength)) or as fields of
+// a small decoder value the row loop fills in once (d.bytesPerPixel, d.rowLength, d.prevRows).
+type pngRow struct {
+	fn *ssa.Function
+}
+
+var pngRoleNames = map[string]string{
+	"bytesperpixel": "bpp", "bpp": "bpp", "pixelbytes": "bpp", "pixelsize": "bpp",
+	"rownum": "row", "rowindex": "row", "rowno": "row",
+	"rowlength": "rowLen", "rowlen": "rowLen", "rowbytes": "rowLen", "rowwidth": "rowLen",
+	"prevrows": "prev", "prev": "prev", "previous": "prev", "decoded": "prev", "above": "prev",
+	"rowdata": "in", "src": "in", "input": "in",
+	"predictor": "tag", "tag": "tag", "filtertype": "tag", "filter": "tag",
+}
+
+func findPNGRow(p *eng.Prog) *pngRow {
+	if f := p.FuncExact("internal/filters.decodePNGRow"); f != nil {
+		return &pngRow{f}
+	}
+	// by role: the function the row loop of applyPNGPredictor calls that compares a byte input with the tags 0..4
+	if host := p.Func("internal/filters.applyPNGPredictor"); host != nil {
+		for _, h := range eng.Cluster(host, 1) {
+			tags := map[int64]bool{}
+			eng.Instrs(h, false, func(in ssa.Instruction) {
+				if b, ok := in.(*ssa.BinOp); ok && b.Op == token.EQL {
+					if bt, ok := b.X.Type().Underlying().(*types.Basic); ok && bt.Kind() == types.Uint8 {
+						if k, ok := eng.ConstInt(b.Y); ok {
+							tags[k] = true
+						}
+					}
+				}
+			})
+			if tags[1] && tags[2] && tags[3] && tags[4] {
+				return &pngRow{h}
+			}
+		}
+	}
+	if f := p.Func("internal/filters.decodePNGRow"); f != nil {
+		return &pngRow{f}
+	}
+	return nil
+}
+
+// role names the input a value stands for inside the row decoder ("" if none).
+func (r *pngRow) role(v ssa.Value) string {
+	name := ""
+	switch x := v.(type) {
+	case *ssa.Parameter:
+		name = x.Name()
+		// the original positional signature, whatever the names
+		if ps := r.fn.Params; len(ps) == 6 && r.fn.Signature.Recv() == nil {
+			for i, q := range ps {
+				if q == x {
+					return []string{"in", "tag", "bpp", "row", "prev", "rowLen"}[i]
+				}
+			}
+		}
+	default:
+		if fr, ok := eng.LoadOfField(v); ok {
+			name = fr.Field
+		} else if f, ok := v.(*ssa.Field); ok {
+			if fr, ok := eng.AsField(f); ok {
+				name = fr.Field
+			}
+		}
+	}
+	if name == "" {
+		return ""
+	}
+	return pngRoleNames[strings.ToLower(name)]
+}
+
+// find returns a value of the decoder that has the given role (a parameter, or a load of the field).
+func (r *pngRow) find(role string) ssa.Value {
+	for _, p := range r.fn.Params {
+		if r.role(p) == role {
+			return p
+		}
+	}
+	var out ssa.Value
+	eng.Instrs(r.fn, false, func(in ssa.Instruction) {
+		if v, ok := in.(ssa.Value); ok && out == nil && r.role(v) == role {
+			out = v
+		}
+	})
+	return out
+}
+
+// atCall returns the value the caller supplies for a role: the argument, or what it stored into the field of the
+// decoder value it passes as receiver.
+func (r *pngRow) atCall(call ssa.CallInstruction, role string) ssa.Value {
+	args := call.Common().Args
+	for i, p := range r.fn.Params {
+		if r.role(p) == role && i < len(args) {
+			return args[i]
+		}
+	}
+	if len(args) == 0 {
+		return nil
+	}
+	recv := args[0]
+	var out ssa.Value
+	eng.Instrs(call.Parent(), false, func(in ssa.Instruction) {
+		st, ok := in.(*ssa.Store)
+		if !ok {
+			return
+		}
+		fa, ok := st.Addr.(*ssa.FieldAddr)
+		if !ok || fa.X != recv {
+			return
+		}
+		if fr, ok := eng.AsField(fa); ok && pngRoleNames[strings.ToLower(fr.Field)] == role {
+			out = st.Val
+		}
+	})
+	return out
 }
